@@ -332,9 +332,28 @@ sealing!(AV, Local, Local);
 sealing!(AV, Public, Secret);
 sealing!(AV3, Local, Local);
 
+/// what `AV::hash_key` was last called with, and what it returned
+pub static mut ID_HEADER_SEEN: &str = "";
+pub static mut ID_DATA_SEEN: [u8; 32] = [0; 32];
+pub static mut ID_DATA_LEN: usize = 0;
+pub static mut ID_RETURNED: [u8; 33] = [0; 33];
+pub static mut ID_CALLS: u32 = 0;
 impl IdVersion for AV {
-    fn hash_key(_key_header: &'static str, _key_data: &[u8]) -> [u8; 33] {
-        kani::any()
+    fn hash_key(key_header: &'static str, key_data: &[u8]) -> [u8; 33] {
+        let r: [u8; 33] = kani::any();
+        unsafe {
+            ID_CALLS += 1;
+            ID_HEADER_SEEN = key_header;
+            kani::assume(key_data.len() <= 32);
+            let mut i = 0;
+            while i < key_data.len() {
+                ID_DATA_SEEN[i] = key_data[i];
+                i += 1;
+            }
+            ID_DATA_LEN = key_data.len();
+            ID_RETURNED = r;
+        }
+        r
     }
 }
 
